@@ -140,6 +140,17 @@ def gen_instr(out_src, tier, harnesses, table, last):
         src_txt = extract.fn_source(e["module"], e["func"].split("::")[-1]) or ""
         fn_hash = hashlib.sha1((e["func"] + "\n" + src_txt).encode()).hexdigest()[:16]
         FN_HASHES[name] = fn_hash
+        # helper files an instruction depends on beyond its own body (change-aware quick selection)
+        deps = []
+        if name.endswith(".RAND") or name == "NAME.RANDBOUNDNAME":
+            deps.append("random.rs")
+        if name.split(".")[-1] in ("DUP", "POP", "SWAP", "ROT", "YANK", "SHOVE", "YANKDUP", "FLUSH", "STACKDEPTH") and name.split(".")[0] in ("BOOLEAN", "INTEGER", "FLOAT"):
+            deps.append("stack.rs")
+        if name.startswith("INPUT.") or name.startswith("OUTPUT."):
+            deps.append("buffer.rs")
+        for dep in deps:
+            if "file::" + dep not in FN_HASHES:
+                FN_HASHES["file::" + dep] = hashlib.sha1(open(os.path.join(extract.SRC, dep), "rb").read()).hexdigest()[:16]
         if name not in catalog.CAT:
             not_item_free.append(name)
             continue
@@ -231,6 +242,7 @@ def gen_instr(out_src, tier, harnesses, table, last):
                         "instruction": name,
                         "function": e["func"],
                         "fn_hash": fn_hash,
+                        "dep_hashes": {d: FN_HASHES["file::" + d] for d in deps},
                         "module": e["module"],
                         "shapes": len(part),
                         "cost": round(len(part) * (6 if nvec == 0 else (14 if nvec == 1 else 28)) * {"NoPanic": 0.8, "Sem": 1.0, "Frame": 1.6, "Twice": 2.0, "Cost": 1.0}[mode_rs] * (6 if heavy else (3 if fheavy else 1)) + 8, 1),
